@@ -232,6 +232,7 @@ func dump() []string {
 		for _, x := range l.Writables {
 			ws = append(ws, int(x))
 		}
+		sort.Ints(ws) // the slice order depends on Go's map iteration order (deleted volumes of a full heartbeat); the writable SET is what matters
 		var vids []int
 		for vid := range l.Locations {
 			vids = append(vids, int(vid))
@@ -463,6 +464,19 @@ func (g *gen) ecOne(vid, bits int) string {
 }
 func si(i int) string { return strconv.Itoa(i) }
 
+// pickVid: a registered volume of the simulated server, chosen by the run's PRNG (never by map order)
+func (g *gen) pickVid(s *tsrv) (int, bool) {
+	var vids []int
+	for v := range s.vols {
+		vids = append(vids, v)
+	}
+	if len(vids) == 0 {
+		return 0, false
+	}
+	sort.Ints(vids)
+	return vids[g.r.Intn(len(vids))], true
+}
+
 func (g *gen) heartbeatPrelude(i int) {
 	s := g.srv[i]
 	apply([]string{"max", si(i), si(s.maxH), si(s.maxS)})
@@ -523,16 +537,16 @@ func (g *gen) oneCase(steps int) {
 				}
 			}
 		case k < 24: // a volume is deleted
-			for vid := range s.vols {
+			if vid, ok := g.pickVid(s); ok {
 				delete(s.vols, vid)
 				if r.Chance(3, 4) {
 					g.heartbeatPrelude(i)
 					apply([]string{"inc", si(i), "-", g.short(vid)})
 				}
-				break
 			}
 		case k < 34: // read-only flips / size growth / tiering: visible in the next full heartbeat
-			for vid, v := range s.vols {
+			if vid, ok := g.pickVid(s); ok {
+				v := s.vols[vid]
 				switch r.Intn(4) {
 				case 0, 1:
 					v.ro = !v.ro
@@ -541,8 +555,6 @@ func (g *gen) oneCase(steps int) {
 				case 3:
 					v.remote = !v.remote
 				}
-				_ = vid
-				break
 			}
 			if r.Chance(2, 3) {
 				g.heartbeatPrelude(i)
